@@ -101,7 +101,7 @@ def predicted_late(c):
 def case_key(c):
     what = c["cause"] if c["cause"] != "inject" else f"{c['point']}:{c['kind']}"
     return (f"{what}|{c['prior']}|{c['mode']}|{'fork' if c['fork'] else 'nofork'}|t{c['threads']}|"
-            f"{'so' if c['shared'] else 'exe'}")
+            f"{'so' if c['shared'] else 'exe'}" + (f"|delay{c['delay']}" if c.get("delay") else ""))
 
 
 def build_program(d, prog, cause, shared):
@@ -189,6 +189,10 @@ class C18(Check):
             "threads": st.sampled_from(THREADS),
             "shared": st.booleans(),
             "unwritable_dir": st.booleans(),
+            # schedule steering: delay (ms) of the background task that creates the output file
+            # (hook point `creating-output`, WILD_VERIF_DELAY), so that a mid-link failure can reach
+            # the clean-up code before, while or after the file appears
+            "delay": st.sampled_from([0, 0, 0, 40, 200]),
             "prog": st.fixed_dictionaries({
                 "nobj": st.integers(0, 3),
                 "sizes": st.lists(st.sampled_from([1, 7, 64, 300, 4096, 20000]), min_size=1, max_size=3),
@@ -265,6 +269,8 @@ class C18(Check):
         env = {"WILD_VERIF_POINTS": trace_path}
         if c["cause"] == "inject":
             env["WILD_VERIF_CRASH"] = f"{c['point']}:{c['kind']}"
+        if c.get("delay"):
+            env["WILD_VERIF_DELAY"] = f"creating-output:{c['delay']}"
         res = hist.wild(cmd, cwd=w, env_extra=env, user=hist.NOBODY if nonroot else None)
         if res.timed_out:
             raise Inconclusive("wild timed out")
@@ -319,6 +325,8 @@ class C18(Check):
             if not hist.same_entry(before_peer, after_peer):
                 info["classes"].append("note:hardlink-peer-changed")
         info["classes"].append("phase:late" if late else "phase:early")
+        if c.get("delay") and "creating-output" in trace:
+            info["classes"].append("delayed-background-creation" + (":mid-failure" if late and not created else ""))
         info["classes"].append("after:absent" if after is None else "after:untouched")
         info["nontrivial"] = bool(c["prior"] != "absent" or late)
         return info
@@ -338,7 +346,7 @@ class C18(Check):
                     cells.append(normalise({
                         "cause": cause, "point": point, "kind": kind, "prior": prior, "mode": mode,
                         "fork": bool(r & 1), "threads": THREADS[(r >> 1) % 4], "shared": bool((r >> 3) & 1),
-                        "unwritable_dir": bool((r >> 4) & 1),
+                        "unwritable_dir": bool((r >> 4) & 1), "delay": [0, 200][(r >> 8) & 1],
                         "prog": {"nobj": (r >> 5) % 3, "sizes": [64, 4096], "archive": bool((r >> 7) & 1), "pos": 0},
                     }))
                     i += 1
